@@ -73,6 +73,14 @@ def render(case, seed=0):
         o.append('%sfmt.Printf("X%d\\n")' % (t, i + 1))
         if u["s"] == "go":
             o.append("%sready%d <- 1" % (t, i + 1))
+        if u["s"] == "go" and u["x"] != "ok":
+            # an error / unrecovered panic leaving a program goroutine stops the launching context at an arbitrary point
+            # (GoRoutine sets parentCtx.goErr and running = false): the launchers of the enclosing program goroutines must
+            # not wait for a signal that may never be sent
+            r = goroot(parent.get(i))
+            while r is not None:
+                o.append("%sready%d <- 1" % (t, r + 1))
+                r = goroot(parent.get(r))
         if u["x"] == "error":
             o += ["%sz%d := 0" % (t, i + 1), "%sz%d = 1 / z%d" % (t, i + 1, i + 1)]
         elif u["x"] == "panic":
